@@ -184,6 +184,11 @@ def imports(ctx, case):
             if r["error"]:
                 ctx.violation(case, {"why": "importer %d of %d raised under concurrency" % (i, N), "error": r["error"]})
                 return
+        for i, r in enumerate(results):
+            if r.get("still_there_after_import"):
+                ctx.violation(case, {"why": "an importer had finished its import but temp files it created were still in the shared directory",
+                                     "importer": i, "files": r["still_there_after_import"][:5], "from_string": case["from_string"]})
+                return
         for i, (r, solo) in enumerate(zip(results, solos)):
             ctx.mon("outputs compared with solitary import")
             d = dbdump.diff(solo, dbdump.dump(procs[i][1]["out_db"]))
@@ -314,6 +319,13 @@ def readers(ctx, case):
                 ctx.violation(case, {"why": "a concurrent reader failed", "stderr": p.stderr.read().decode("utf-8", "replace")[-500:]})
                 return
             r = json.load(open(a["out"]))
+            for sid, hits in r.get("region_hits", {}).items():
+                want = sorted(f["id"] for f in expected["features"] if f["seqid"] == sid and f["start"] >= 1 and f["end"] <= 10 ** 7)
+                ctx.mon("reader region/limit results compared")
+                if hits[0] != want or hits[1] != want or hits[2] != want:
+                    ctx.violation(case, {"why": "a concurrent reader's region/limit query did not return the full content", "seqid": sid,
+                                         "got": [len(h) for h in hits], "expected": len(want)})
+                    return
             if sorted(f[0] for f in r["features"]) != exp_feats or r["count"] != len(exp_feats) or \
                     sorted(r["relations"], key=lambda t: (t[0], t[1], t[2])) != exp_rel or r["directives"] != expected["directives"]:
                 ctx.violation(case, {"why": "a concurrent reader did not observe the full content", "features_seen": len(r["features"]),
